@@ -63,12 +63,27 @@ def run(tier):
     for fam in ("noti", "subreq", "resp"):
         vf = os.path.join(work, "vec_%s.txt" % fam)
         nvec += gen_vectors(fam, os.path.join(work, "gen"), vf)
-        st = vlib.drv_stats(vlib.run_driver(drv, ["ingest", "run", "-family", fam, "-vectors", vf, "-out", tr, "-shards", sh],
-                                            env={"VERIF_GLOG_DIR": os.path.join(work, "glog")}, timeout=3000))
-        for k, v in st.items():
-            if isinstance(v, int):
-                d[k] = d.get(k, 0) + v
-    files = sorted(os.path.join(tr, f) for f in os.listdir(tr) if f.endswith(".ndjson"))
+        # the response family opens five gRPC connections per vector and the one-shot client paths do not
+        # all close theirs: one driver process per 1500 vectors keeps it below the descriptor limit
+        chunks = [vf]
+        if fam == "resp":
+            with open(vf) as f:
+                lines = f.readlines()
+            chunks = []
+            for i in range(0, len(lines), 1500):
+                cf = "%s.%d" % (vf, i // 1500)
+                with open(cf, "w") as f:
+                    f.writelines(lines[i:i + 1500])
+                chunks.append(cf)
+        for ci, cf in enumerate(chunks):
+            st = vlib.drv_stats(vlib.run_driver(drv, ["ingest", "run", "-family", fam, "-vectors", cf, "-out", os.path.join(tr, "%s%d" % (fam, ci)), "-shards", sh],
+                                                env={"VERIF_GLOG_DIR": os.path.join(work, "glog")}, timeout=3000))
+            if st.get("unreached", 0):
+                raise vlib.Infra("%d client connections of the %s family never reached the scripted server (their outcomes prove nothing)" % (st["unreached"], fam))
+            for k, v in st.items():
+                if isinstance(v, int):
+                    d[k] = d.get(k, 0) + v
+    files = sorted(os.path.join(dp, f) for dp, _, fs in os.walk(tr) for f in fs if f.endswith(".ndjson"))
     stats, rejs = vlib.validate_traces("IngestTrace.tla", "IngestTrace.cfg", files, os.path.join(work, "val"), lambda e: True, max_rejections=4)
     for r in rejs:
         outcome.report(signature(r), dict(family="ingest", rejected_event=r.event, reason=r.reason, spec="IngestTrace.tla"))
